@@ -38,7 +38,7 @@ func main() {
 	workers := flag.Int("workers", 16, "parallel workers")
 	maxPaths := flag.Int("max-paths", 20000, "path limit per harness")
 	steps := flag.Int("steps", 2000000, "SSA instruction limit per path")
-	samples := flag.Int("samples", 3, "path samples to keep per harness")
+	samples := flag.Int("samples", 6, "path samples to keep per harness")
 	out := flag.String("out", "", "result JSON file")
 	solver := flag.String("solver", "z3", "solver binary")
 	timeout := flag.Int("timeout", 20000, "solver timeout per query (ms)")
